@@ -110,18 +110,20 @@ IsSkipV(x) == x = <<SKIP>>
 
 \* judge a row of outcomes against a row of clauses; one mismatch record per
 \* distinct clause tag (so that a new violation is never hidden behind a known one)
-JudgeRowG(e, o, pre, r, cls, outs, live) ==
+JudgeRowG(e, o, pre, r, cls, outs, live, vec) ==
     LET bad == {j \in live : ~ClOk(cls[j], outs[j])}
-        badtags == {cls[j].tag : j \in bad}
-        First(tg) == CHOOSE j \in bad : cls[j].tag = tg /\ \A jj \in bad : cls[jj].tag = tg => j <= jj
-        ms == SX!SetToSeq({Mis(e, o, pre \o tg, r, First(tg), outs[First(tg)], cls[First(tg)].exp) : tg \in badtags})
+        NoneLike(j) == IF vec THEN outs[j] = <<NONE>> ELSE outs[j] = NONE
+        Key(j) == <<cls[j].tag, NoneLike(j)>>
+        keys == {Key(j) : j \in bad}
+        First(ky) == CHOOSE j \in bad : Key(j) = ky /\ \A jj \in bad : Key(jj) = ky => j <= jj
+        ms == SX!SetToSeq({Mis(e, o, pre \o ky[1], r, First(ky), outs[First(ky)], cls[First(ky)].exp) : ky \in keys})
     IN  Res(ms, Cardinality(bad), Cardinality(live), {pre \o cls[j].tag : j \in live})
 
 JudgeRowI(e, o, pre, r, cls, outs) ==
-    JudgeRowG(e, o, pre, r, cls, outs, {j \in 1..Len(outs) : ~IsSkipI(outs[j])})
+    JudgeRowG(e, o, pre, r, cls, outs, {j \in 1..Len(outs) : ~IsSkipI(outs[j])}, FALSE)
 
 JudgeRowV(e, o, pre, r, cls, outs) ==
-    JudgeRowG(e, o, pre, r, cls, outs, {j \in 1..Len(outs) : ~IsSkipV(outs[j])})
+    JudgeRowG(e, o, pre, r, cls, outs, {j \in 1..Len(outs) : ~IsSkipV(outs[j])}, TRUE)
 
 RECURSIVE MergeFrom(_, _)
 MergeFrom(rs, t) ==
